@@ -35,7 +35,10 @@ def cases(rng, tier):
         a1, a2 = rng.sample(dims, 2)
         nd = len(dims)
         ref = None if rng.random() < 0.4 else [float(Fraction(rng.randint(-64, 64), 4)) for _ in range(nd)]
-        yield dict(obj=spec, ax1=a1, ax2=a2, k=rng.randint(-6, 6), ref=ref, k2=rng.randint(-5, 5))
+        if ref is not None and rng.random() < 0.1:
+            ref = [0.0] * nd
+        yield dict(obj=spec, ax1=a1, ax2=a2, k=rng.randint(-6, 6), ref=ref, k2=rng.randint(-5, 5),
+                   form=rng.choice(["list", "tuple", "ndarray", "intlist"]))
     # exhaustive over ordered pairs x k on one 3-d vector field with permuted mapping
     base = tc.gen_object_spec(random.Random(7), "field", ndim=3)
     base["nvdim"] = 3
@@ -66,6 +69,7 @@ def run_impl(case):
     fail = obs["oracle"].append
     f = tc.build_object(case["obj"])
     a1, a2, k, ref = case["ax1"], case["ax2"], case["k"], case["ref"]
+    ref_arg = tc._as_form(ref, case.get("form", "list"))          # the same point as list / tuple / ndarray / ints
     dims = list(f.mesh.region.dims)
     i1, i2 = dims.index(a1), dims.index(a2)
     obs["start"] = tc.to_json(f)
@@ -76,7 +80,7 @@ def run_impl(case):
         mapped = rmap.get(a1) in (f.vdims or []) and rmap.get(a2) in (f.vdims or [])
     obs["tags"] += [f"ndim:{len(dims)}", f"nvdim:{f.nvdim}", f"k%4:{k % 4}", f"mapped:{mapped}", f"ref:{'default' if ref is None else 'given'}"]
     try:
-        g = f.rotate90(a1, a2, k=k, reference_point=ref)
+        g = f.rotate90(a1, a2, k=k, reference_point=ref_arg)
         st = "ok"
     except Exception as e:
         g, st = None, "err"
@@ -85,12 +89,14 @@ def run_impl(case):
         fail("copying rotate90 modified the field")
     twin = tc.clone(f)
     try:
-        r2 = twin.rotate90(a1, a2, k=k, reference_point=ref, inplace=True)
+        r2 = twin.rotate90(a1, a2, k=k, reference_point=ref_arg, inplace=True)
         st2 = "ok"
     except Exception:
         r2, st2 = None, "err"
     if st != st2:
         fail(f"copy form {st}, in-place form {st2}")
+    if isinstance(ref_arg, np.ndarray) and ref_arg.tolist() != list(ref):
+        fail(f"the array passed as reference_point was changed by rotate90: {ref} -> {ref_arg.tolist()}")
     if st2 == "err" and not same_state(tc.snap(twin), before, rel=0):
         fail("refused in-place rotate90 modified the field")
     if not mapped:
@@ -137,7 +143,8 @@ def run_impl(case):
         else:
             w = v
         gv = g.array[tuple(j)]
-        if any(abs(Fraction(float(x)) - y) > Fraction(1, 10**9) for x, y in zip(gv, w)):
+        vtol = Fraction(1, 10**9) * max([abs(x) for x in v] + [Fraction(0)])      # relative to the cell's own magnitude
+        if any(abs(Fraction(float(x)) - y) > vtol for x, y in zip(gv, w)):
             fail(f"g(R+Q(p-R)) = {gv.tolist()} but Q f(p) = {list(map(float, w))} at p={list(map(float, p))} (k={k}, axes {a1}->{a2}, mapping {f.vdim_mapping})")
             break
         if bool(g.valid[tuple(j)]) != bool(f.valid[idx]):
